@@ -24,6 +24,61 @@ def project_for(kind):
     return lambda diags: {(d["file"], d["line"], d["code"]) for d in diags if d["code"] == code}
 
 
+SAMEPOS_D = """package d
+
+// I is a contract.
+type I interface {
+	M()
+}
+
+type S struct{}
+
+// MkS is restricted.
+// @packageonly
+func MkS() S { return S{} }
+
+// PM is restricted.
+// @packageonly
+func (s S) PM(n int) int { return n }
+
+// MkTS is a test helper.
+// @testonly
+func MkTS() S { return S{} }
+
+// TM is a test helper.
+// @testonly
+func (s S) TM(n int) int { return n }
+"""
+
+
+def same_position_programs():
+    """(program, expected keys in package u): for each pair of codes reported at one position, a directive naming one of them."""
+    out = []
+    cases = [("IMPL", "IMPL01", "IMPL03"), ("PKGO", "PKGO02", "PKGO03"), ("TONL", "TONL02", "TONL03")]
+    for cat, c1, c2 in cases:
+        for ign in (None, c1, c2, cat):
+            ls = ["package u", "", 'import "m/d"', ""]
+            exp = set()
+            if cat == "IMPL":
+                if ign:
+                    ls.append("// @ignore " + ign)
+                ls += ["// A claims two interfaces and implements neither.", "// @implements nope.I", "// @implements d.I", "type A struct{}"]
+                line = len(ls)
+                ls += ["", "var _ d.S", ""]
+            else:
+                call = "d.MkS().PM(1)" if cat == "PKGO" else "d.MkTS().TM(1)"
+                ls += ["func f() {", "\t_ = %s%s" % (call, (" // @ignore " + ign) if ign else "")]
+                line = len(ls)
+                ls += ["}", ""]
+            for c in (c1, c2):
+                if ign not in (c, cat):
+                    exp.add(("u/u.go", line, c))
+            out.append(({"id": "C07_samepos_%s_%s" % (cat, ign or "none"),
+                         "pkgs": [{"path": "m/d", "name": "d", "files": [{"name": "d/d.go", "src": SAMEPOS_D}]},
+                                  {"path": "m/u", "name": "u", "files": [{"name": "u/u.go", "src": "\n".join(ls) + "\n"}]}]}, exp))
+    return out
+
+
 def run(ctx):
     if ctx.replay:
         import json
@@ -62,6 +117,20 @@ def run(ctx):
         samples += [s for s in rep.samples if s["scenario"]["removed"]][:1] if len(samples) < 3 else []
         if not ctx.violations:
             nreal += progcheck.real_drivers(ctx, progcheck.sample(items, 150 if thorough else 12, ctx.seed), None, rep, project=proj)
+    # two diagnostics with different codes at one position (two failing @implements on a type; a chained call): a directive that
+    # names one of the codes removes exactly that one (L1: a directive removes the diagnostics that match one of its codes)
+    samepos = same_position_programs()
+    res = proglib.run_vh(ctx, [p for p, _e in samepos])
+    for prog, exp in samepos:
+        r = res[prog["id"]]
+        run_n += 1
+        if r.get("err"):
+            raise vlib.ToolError("same-position program does not load: %s" % r["err"][:300])
+        got = None if r.get("fail") else {k for k in proglib.keyset(r["diags"]) if k[0].startswith("u/")}
+        if got != exp and len(ctx.violations) < 3:
+            ctx.violation("two diagnostics at one position, directive naming one code (%s): expected %s, observed %s"
+                          % (prog["id"], sorted(exp), sorted(got) if got is not None else r.get("fail", "")[:200]),
+                          {"kind": "program", "program": prog, "expected": sorted(exp), "observed": sorted(got or []), "cats": []})
     return ctx.finish("model_checking", {
         "traces_validated_against_impl": run_n + nreal,
         "samples": samples,
